@@ -721,13 +721,49 @@ pub fn c10(ctx: &Ctx) -> Collector {
 
 // ---------------------------------------------------------------- C15
 
+/// C15 on copies: a symbol copied with clone() or clone_from() (into a smaller and into a larger existing symbol) is a
+/// QRCode too; its labels must be the source's (which the main check compares with the region map)
+fn c15_extra(_case: &Case, _input: &[u8], out: &Outcome) -> Vec<Finding> {
+    let mut f = vec![];
+    if let Outcome::Ok(q) = out {
+        let n = q.size;
+        let labels = |x: &fast_qr::QRCode| -> Vec<u8> { (0..x.size * x.size).map(|i| crate::subject::type_idx(x.data[i].module_type())).collect() };
+        let want = labels(q);
+        let r = crate::subject::guarded(|| {
+            let a = q.clone();
+            let mut small = Box::new(fast_qr::QRCode::default(21));
+            small.clone_from(q);
+            let big_src = crate::subject::build(b"0", &crate::subject::Opts { version: Some(40), ..Default::default() });
+            let mut large = match big_src {
+                Outcome::Ok(b) => b,
+                _ => Box::new(fast_qr::QRCode::default(177)),
+            };
+            large.clone_from(q);
+            ((a.size, labels(&a)), (small.size, labels(&small)), (large.size, labels(&large)))
+        });
+        match r {
+            Ok((a, b, c)) => {
+                for (name, (sz, l)) in [("clone()", a), ("clone_from() into a smaller symbol", b), ("clone_from() into a version-40 symbol", c)] {
+                    if sz != n || l != want {
+                        let at = l.iter().zip(want.iter()).position(|(x, y)| x != y);
+                        f.push(Finding { prop: "C15", key: "C15/labels-of-a-copy".into(), what: format!("{}: the copy's module types differ from the source's (side {} vs {}, first difference at flat index {:?})", name, sz, n, at) });
+                        break;
+                    }
+                }
+            }
+            Err(m) => f.push(Finding { prop: "C15", key: "C15/copy-panic".into(), what: format!("copying the returned symbol panicked: {}", m) }),
+        }
+    }
+    f
+}
+
 pub fn c15(ctx: &Ctx) -> Collector {
     let col = Collector::new("C15", "exploration");
-    col.set_rule("cases = S_cell + S_opt builds (all 40 versions under all levels, masks, modes and several payloads); oracle at every coordinate (477 320 over the 40 sizes): module_type() equals R's computed ISO region map (either label accepted on the <= 5 modules per alignment pattern that lie on a timing line); count of data labels = 8 x total codewords + remainder bits; non-trivial = a symbol was returned; distinct = distinct symbol matrices");
+    col.set_rule("cases = S_cell + S_opt builds (all 40 versions under all levels, masks, modes and several payloads); oracle at every coordinate (477 320 over the 40 sizes): module_type() equals R's computed ISO region map (either label accepted on the <= 5 modules per alignment pattern that lie on a timing line); count of data labels = 8 x total codewords + remainder bits; on S_opt also the labels of clone() / clone_from() copies (into a smaller and into a version-40 symbol); non-trivial = a symbol was returned; distinct = distinct symbol matrices");
     col.assume(A_REF);
     let p = ["C15"];
     run_space(&col, 0, &spaces::s_cell(ctx.tier.thorough()), &p, true, &no_extra);
-    run_space(&col, 1, &spaces::s_opt(ctx.tier.thorough()), &p, true, &no_extra);
+    run_space(&col, 1, &spaces::s_opt(ctx.tier.thorough()), &p, true, &c15_extra);
     run_space(&col, 2, &spaces::s_small(&[None], false), &p, true, &no_extra);
     run_histories(&col, 4, &p, ctx.tier.thorough());
     // uniform and crafted payloads (a placement that treats runs of equal codewords specially must still label them)
